@@ -318,7 +318,7 @@ func verifyFunc(w *World, fi *FuncInfo, fc *FuncContract, sweep bool) (res *Func
 					env.old[k] = v
 				}
 				for _, p := range params {
-					if p.ptr && p.obj != nil && !rebound[p.obj] {
+					if (p.ptr || (fc != nil && contains(fc.Modifies, p.name))) && p.obj != nil && !rebound[p.obj] {
 						if v, ok := rp.st.vars[p.obj]; ok {
 							env.vars[p.name] = v
 							if p.name == fiRecvName(fi) {
